@@ -1,4 +1,5 @@
 import AdeuModel.Lemmas.Review
+import AdeuModel.Lemmas.ReviewDoc
 /-
 C06 — accept and reject act exactly on the addressed change.
 `acceptN` / `rejectN` are what `_accept_change` / `_reject_change` do to one paragraph child; the
@@ -55,6 +56,25 @@ theorem C06_accept_each_eq_acceptAll (ns : List Node) (ids : List Str) :
   | cons id rest ih =>
     simp only [List.foldl_cons]
     rw [ih, acceptedChars_accept]
+
+/-! ### the same at document level: the whole main story, tables and nested tables included -/
+
+/-- Actions on distinct ids commute on the whole story (all four accept / reject combinations). -/
+theorem C06_commute_doc (a b : Bool) (i j : Str) (hij : i ≠ j) (body : List Block) :
+    (actChange b j (actChange a i body).1).1 = (actChange a i (actChange b j body).1).1 :=
+  actChange_comm a b i j hij body
+
+/-- An action on an id that no change of the story carries (unknown, or already resolved) is reported as
+skipped and the story is exactly as before. -/
+theorem C06_unknown_skipped_doc (acc : Bool) (id : Str) (body : List Block) (h : hasRev id body = false) :
+    actChange acc id body = (body, false) :=
+  actChange_unknown acc id body h
+
+/-- An action only touches paragraph children: paragraph properties, tables, rows, cells and other blocks of
+the story are untouched. -/
+theorem C06_skeleton_untouched_doc (acc : Bool) (id : Str) (body : List Block) :
+    skel (actChange acc id body).1 = skel body :=
+  actChange_skel acc id body
 
 /-! Non-vacuity -/
 def sampleNodes : List Node :=
